@@ -1,13 +1,13 @@
 package rules
 
 import (
-	"math"
 	"bytes"
 	"fmt"
 	"go/ast"
 	"go/constant"
 	"go/token"
 	"go/types"
+	"math"
 	"net/netip"
 	"sort"
 	"strings"
@@ -36,6 +36,7 @@ func runC18(c *Ctx) {
 	c18R4(c)
 	c18R5(c)
 	c18R6(c)
+	c18R7(c)
 }
 
 // ---- interval sets over 16-byte addresses -----------------------------------
@@ -1197,4 +1198,108 @@ func c18R6(c *Ctx) {
 		}
 	}
 	c.R.Check(has, r, "reservedHeaders contains Authorization", "pkg/plugin/processor/egress/service.go", "present", "the reserved-header table no longer contains Authorization: a guest can supply its own credential header", false)
+}
+
+// c18R7: two small total functions the policy rests on.
+func c18R7(c *Ctx) {
+	r := c.R.Rule("R7", "K6/K3 identity and v4-compatible form: entryKey is built from scheme, host and port on every path (the allowlist is intersected with the ceiling on the full triple); isV4Compatible examines byte 15 (the ::, ::1 exception) only after bytes 12, 13 and 14 were found zero", 4)
+	if fn := c.SSA(r, pEgress, "entryKey"); fn != nil {
+		// backwards through string concatenation, calls (JoinHostPort, String) and phis
+		var uses func(v ssa.Value, pred func(ssa.Value) bool, d int) bool
+		uses = func(v ssa.Value, pred func(ssa.Value) bool, d int) bool {
+			if v == nil || d > 10 {
+				return false
+			}
+			if pred(v) {
+				return true
+			}
+			switch x := v.(type) {
+			case *ssa.BinOp:
+				return uses(x.X, pred, d+1) || uses(x.Y, pred, d+1)
+			case *ssa.Phi:
+				for _, e := range x.Edges {
+					if uses(e, pred, d+1) {
+						return true
+					}
+				}
+			case *ssa.Call:
+				for _, a := range x.Call.Args {
+					if uses(a, pred, d+1) {
+						return true
+					}
+				}
+			case *ssa.UnOp:
+				return uses(x.X, pred, d+1)
+			case *ssa.Convert:
+				return uses(x.X, pred, d+1)
+			case *ssa.ChangeType:
+				return uses(x.X, pred, d+1)
+			}
+			return false
+		}
+		isField := func(name string) func(ssa.Value) bool {
+			return func(x ssa.Value) bool {
+				switch y := x.(type) {
+				case *ssa.Field:
+					f := kit.FieldOf(y)
+					return f != nil && f.Name() == name
+				case *ssa.FieldAddr:
+					f := kit.FieldOf(y)
+					return f != nil && f.Name() == name
+				}
+				return fieldNamed(x, name)
+			}
+		}
+		for _, ret := range kit.Returns(fn) {
+			v := kit.RetVal(ret, 0)
+			for _, fname := range []string{"Scheme", "Port"} {
+				ok := uses(v, isField(fname), 0)
+				c.R.Check(ok, r, "entryKey: the key contains the "+fname, c.Pos(posOf(ret)), "ok", "a return of entryKey does not include AllowEntry."+fname+": an entry the ceiling admits in one form (https) lets a different form (http to the same private IP and port) through the intersection", true)
+			}
+			okHost := uses(v, isField("Host"), 0) || uses(v, isField("IP"), 0)
+			c.R.Check(okHost, r, "entryKey: the key contains the host", c.Pos(posOf(ret)), "ok", "a return of entryKey does not include the host", true)
+		}
+	}
+	if fn := c.SSA(r, pEgress, "isV4Compatible"); fn != nil {
+		// effective byte index of an element load: constant index plus the constant Low of a re-slice
+		idxOf := func(v ssa.Value) (int64, bool) {
+			u, ok := v.(*ssa.UnOp)
+			if !ok || u.Op != token.MUL {
+				return 0, false
+			}
+			ia, ok := u.X.(*ssa.IndexAddr)
+			if !ok {
+				return 0, false
+			}
+			k, ok := ia.Index.(*ssa.Const)
+			if !ok || k.Value == nil {
+				return 0, false
+			}
+			off := k.Int64()
+			if sl, ok := ia.X.(*ssa.Slice); ok && sl.Low != nil {
+				lk, ok := sl.Low.(*ssa.Const)
+				if !ok {
+					return 0, false
+				}
+				off += lk.Int64()
+			}
+			return off, true
+		}
+		isByte := func(n int64) func(ssa.Value) bool {
+			return func(v ssa.Value) bool { k, ok := idxOf(v); return ok && k == n }
+		}
+		var tests15 []ssa.Instruction
+		for _, b := range fn.Blocks {
+			for _, in := range b.Instrs {
+				if bo, ok := in.(*ssa.BinOp); ok && (bo.Op == token.EQL || bo.Op == token.NEQ) && (isByte(15)(bo.X) || isByte(15)(bo.Y)) {
+					tests15 = append(tests15, bo)
+				}
+			}
+		}
+		c.R.Check(len(tests15) > 0, r, "isV4Compatible: the last byte is examined", c.Pos(fn.Pos()), "ok", "isV4Compatible no longer examines byte 15: ::0.b.c.d addresses (embedded 0.0.0.0/8) other than :: and ::1 are no longer classified as v4-compatible and escape the embedded-IPv4 floor", true)
+		for _, k := range []int64{12, 13, 14} {
+			g := kit.NewGates().AddEdges(kit.RangeEdges(fn, isByte(k), 0, 0), "")
+			c.Dominated(r, "isV4Compatible: byte 15 examined only after byte "+itoa(int(k))+" was found zero", tests15, g, "the ip16["+itoa(int(k))+"] == 0 edge")
+		}
+	}
 }
